@@ -2,6 +2,7 @@ SPECIFICATION Spec
 CONSTANTS
   NV = 2
   StabV = {2}
+  HasHf = FALSE
   NP = 3
   UseQueue = TRUE
   SkipQueue = FALSE
